@@ -489,6 +489,12 @@ class SReal:
     def __bool__(self):
         return bool(SBool(self.eng, self.e != 0))
 
+    def __round__(self, ndigits=None):
+        """round(x, n) as floor(x * 10^n + 1/2) / 10^n (differs from Python's banker's rounding only on exact ties)"""
+        k = 10 ** (ndigits or 0)
+        r = z3.ToReal(z3.ToInt(self.e * k + fractions.Fraction(1, 2))) / k
+        return self._w(r) if ndigits is not None else SInt(self.eng, z3.ToInt(self.e + fractions.Fraction(1, 2)))
+
     def __float__(self):
         raise TypeError("float() of a symbolic real")
 
